@@ -251,6 +251,12 @@ func (e *env) run(in Input) Obs {
 			tx = tx.Scopes(func(d *gorm.DB) *gorm.DB { return d })
 		case "empty_slice":
 			tx = tx.Where([]int64{})
+		case "empty_array":
+			tx = tx.Where([0]int64{})
+		case "not_empty_array":
+			tx = tx.Not([0]int64{})
+		case "or_empty_array":
+			tx = tx.Or(&[0]int64{})
 		case "offset":
 			tx = tx.Offset(1)
 		case "distinct":
@@ -360,6 +366,10 @@ func (e *env) run(in Input) Obs {
 			res = tx.Model(model()).UpdateColumns(map[string]interface{}{"mark": 7})
 		case "delete":
 			res = tx.Delete(model(), inline...)
+		case "delete_inline_empty_array":
+			res = tx.Delete(model(), [0]int64{})
+		case "delete_inline_empty_slice":
+			res = tx.Delete(model(), []int64{})
 		}
 	}
 	evs := rec.Snapshot()
@@ -416,6 +426,24 @@ func runTarget(tx *gorm.DB, in Input, table string) *gorm.DB {
 			return tx.Model(&whr.TS{ID: in.PK}).Delete(&whr.TS{})
 		}
 		return tx.Model(&whr.T{ID: in.PK}).Delete(&whr.T{})
+	case "model_slice_dest":
+		// the key (if any) is in a slice given to Model, the deleted value carries none
+		if in.Soft {
+			sl := &[]whr.TS{{}, {}}
+			if in.PK != 0 {
+				sl = &[]whr.TS{{ID: in.PK}, {}}
+			} else if len(in.Steps)%2 == 1 {
+				sl = &[]whr.TS{}
+			}
+			return tx.Model(sl).Delete(&whr.TS{})
+		}
+		sl := &[]whr.T{{}, {}}
+		if in.PK != 0 {
+			sl = &[]whr.T{{ID: in.PK}, {}}
+		} else if len(in.Steps)%2 == 1 {
+			sl = &[]whr.T{}
+		}
+		return tx.Model(sl).Delete(&whr.T{})
 	case "hooked":
 		var m interface{} = &TH{ID: in.PK}
 		if in.Soft {
@@ -501,8 +529,12 @@ func term(in Input, o Obs) string {
 	for _, s := range in.Steps {
 		if s.Call != nil {
 			calls = append(calls, *s.Call)
-		} else if s.Deco == "empty_slice" {
+		} else if s.Deco == "empty_slice" || s.Deco == "empty_array" {
 			calls = append(calls, whr.Call{Kind: "where", Unit: whr.Unit{Form: "empty_map"}})
+		} else if s.Deco == "not_empty_array" {
+			calls = append(calls, whr.Call{Kind: "not", Unit: whr.Unit{Form: "empty_map"}})
+		} else if s.Deco == "or_empty_array" {
+			calls = append(calls, whr.Call{Kind: "or", Unit: whr.Unit{Form: "empty_map"}})
 		}
 	}
 	return lib.App("mk_case", whr.GTable(in.Atoms, o.Texts), whr.GCalls(calls, byID),
@@ -537,14 +569,15 @@ func alphabet() []Step {
 		{Call: &whr.Call{Kind: "not", Unit: whr.Unit{Form: "empty_struct", Via: "slice"}}},
 		{Call: &whr.Call{Kind: "where", Unit: whr.Unit{Form: "group"}}},
 		{Call: &whr.Call{Kind: "or", Unit: whr.Unit{Form: "group"}}},
-		{Deco: "empty_slice"}, {Deco: "order"}, {Deco: "limit"}, {Deco: "unscoped"}, {Deco: "select"}, {Deco: "omit"}, {Deco: "table"}, {Deco: "scopes"},
+		{Deco: "empty_slice"}, {Deco: "empty_array"}, {Deco: "not_empty_array"}, {Deco: "or_empty_array"}, {Deco: "order"}, {Deco: "limit"}, {Deco: "unscoped"}, {Deco: "select"}, {Deco: "omit"}, {Deco: "table"}, {Deco: "scopes"},
 		{Deco: "session_pu"}, {Deco: "session_misc"}, {Deco: "session_plain"}, {Deco: "session_dryrun"},
 		{Deco: "offset"}, {Deco: "distinct"}, {Deco: "group"}, {Deco: "joins_raw"}, {Deco: "returning"}, {Deco: "locking"},
 		{Deco: "with_context"}, {Deco: "set"}, {Deco: "scope_empty_where"},
 	}
 }
 
-var finishers = []string{"update", "updates_map", "updates_struct", "updates_struct_nomodel", "update_column", "update_columns", "delete"}
+var finishers = []string{"update", "updates_map", "updates_struct", "updates_struct_nomodel", "update_column", "update_columns", "delete",
+	"delete_inline_empty_array", "delete_inline_empty_slice"}
 
 // update values that name the primary-key column: generated only where the chain must be rejected
 // (executed on several rows they end in a UNIQUE violation, which is not this property's business)
@@ -562,6 +595,7 @@ var targets = []struct {
 	// generated)
 	{"assoc_select", []string{"delete", "delete_toys", "delete_tags"}, []int64{0, 1}},
 	{"hooked", []string{"update", "updates_map", "update_column", "update_columns", "delete"}, []int64{0, 3}},
+	{"model_slice_dest", []string{"delete"}, []int64{0, 3}},
 }
 
 func main() {
